@@ -198,7 +198,16 @@ func predict(c *Case) (records []record, f features, err error) {
 			if op.Target < 0 || op.Target >= len(loggers) || op.Level < lvError || op.Level > lvTrace {
 				return nil, f, fmt.Errorf("%s: bad target or level", origin)
 			}
-			message(loggers[op.Target], op.Level, formatMessage(&op), origin, &f, &records)
+			msg := formatMessage(&op)
+			if !strings.Contains(msg, "\n") {
+				// A format string that swallows the appended newline (fmt gives up
+				// on an oversized width, e.g. "%10000010") trips the logger's
+				// documented "something has gone wrong with formatting" assertion.
+				// Format strings are programmer-supplied constants, so this is
+				// outside the property's domain.
+				return nil, f, fmt.Errorf("%s: the format string swallows the trailing newline", origin)
+			}
+			message(loggers[op.Target], op.Level, msg, origin, &f, &records)
 		case "sub":
 			if op.Target < 0 || op.Target >= len(loggers) {
 				return nil, f, fmt.Errorf("%s: bad target", origin)
